@@ -39,6 +39,8 @@ def judge(text: str):
 def shard(args):
     if args[0] == "after-activity":
         return after_activity_shard(args)
+    if args[0] == "python -O":
+        return par.in_interpreter(["-O"], "mc.props.c01", "optimised_child", args[1])
     country, tier = args
     part = par.Part()
     W = alphabet.wide(thorough=(tier == "thorough"))
@@ -96,7 +98,30 @@ def after_activity_shard(args):
     return part.done()
 
 
+def optimised_child(tier):
+    """Runs inside ``python -O``: check pairs, small-alphabet single edits and lengths per country."""
+    part = par.Part()
+    small = ["0", "5", "A", "Z", "a", "-", " ", "٣"]
+    for country in sorted(reg.countries()):
+        for filler, base in bases.base_ibans(country, ["distinct"]):
+            for gen in (families.iban_checkpairs(base), families.single_edits(base, small),
+                        families.iban_lengths(base)):
+                for fam, text in gen:
+                    part.count(("-O", text), nontrivial=(text != base))
+                    ok, sig, exp, obs = judge(text)
+                    if not ok:
+                        part.violation(f"{sig} [{fam}, python -O]", {"kind": "iban_text", "text": text,
+                                       "how": f"{fam} from base {base}, python -O", "interpreter": "-O"},
+                                       exp, obs)
+    part.stat("optimised_interpreter_runs")
+    return part.done()
+
+
 def replay(case: dict) -> dict:
+    if case.get("interpreter") == "-O":
+        part = par.in_interpreter(["-O"], "mc.props.c01", "optimised_child", "quick")
+        hit = [v for v in part["violations"] if v["case"]["text"] == case["text"]]
+        return {"ok": not hit, "observed": hit[0]["observed"] if hit else None, "interpreter": "python -O"}
     ok, sig, exp, obs = judge(case["text"])
     return {"ok": ok, "signature": sig, "expected": exp, "observed": obs}
 
@@ -104,7 +129,7 @@ def replay(case: dict) -> dict:
 def main(tier: str) -> int:
     run = report.Run(PID, tier, "exploration", RULE)
     countries = sorted(reg.countries())
-    par.run_shards(run, shard, [("after-activity", tier)] + [(c, tier) for c in countries])
+    par.run_shards(run, shard, [("after-activity", tier), ("python -O", tier)] + [(c, tier) for c in countries])
     run.extra.update({
         "deviation_bound_completed": ("2 substitutions over W2 (bases distinct, letters) and "
                                       "1 edit over W" if tier == "thorough" else "1 edit over W"),
